@@ -29,6 +29,18 @@ Proof.
   destruct (N.eqb_spec (bid x) p); intros H; eauto.
 Qed.
 
+Lemma path_step l : wf l -> forall p y q, find_blk p l = Some y -> bparent y = Some q -> path l p = p :: path l q.
+Proof.
+  induction l as [|x r IH]; intros W p y q F Q; [discriminate|].
+  pose proof W as W0. destruct W as (Wr & Hx & Hp). simpl in F.
+  destruct (N.eqb_spec (bid x) p) as [E|E].
+  - inversion F; subst y. simpl. rewrite (proj2 (N.eqb_eq _ _) E), Q. f_equal.
+    destruct (N.eqb_spec (bid x) q) as [E2|E2]; [|reflexivity].
+    exfalso. apply (wf_own_parent x r q W0 Q). auto.
+  - rewrite (path_skip x r p E). rewrite (IH Wr p y q F Q). f_equal.
+    rewrite path_skip; auto. intros E2. apply (wf_parent_not_head x r W0 p y q F Q). auto.
+Qed.
+
 (* one step up *)
 Lemma sub_step l t : wf l -> forall p y q, find_blk p l = Some y -> bparent y = Some q ->
   sub l t p = (t =? p)%N || sub l t q.
